@@ -38,4 +38,13 @@ def addQuadraticFromDenseCoded (m : Bqm) (k : Nat) (dense : List Rat) : Bqm × O
   let m := if k > m.n then (m.resize k).1 else m
   (if m.isLinear then m.denseBack k dense else m.denseInsert k dense, none)
 
+/-- the call for a source of the given shape (`Generated.DenseBranch.shape`, extracted from abc.h by
+    harness/translators/c04_dense_branch.py): 0 = sorted insert only, 1 = the `is_linear()` branch as coded; any other decision
+    structure is not modelled (`none`) -/
+def addQuadraticFromDenseGen (shape : Nat) (m : Bqm) (k : Nat) (dense : List Rat) : Option (Bqm × Option ErrC) :=
+  match shape with
+  | 0 => some (m.addQuadraticFromDense k dense)
+  | 1 => some (m.addQuadraticFromDenseCoded k dense)
+  | _ => none
+
 end Bqm
